@@ -38,6 +38,7 @@ type c12Case struct {
 	Events   []c12Event `json:"events,omitempty"`
 	Complete []string   `json:"complete,omitempty"` // names of completion patterns
 	Eager    bool       `json:"eager,omitempty"`
+	Exact    bool       `json:"exact,omitempty"` // input / interactive: exact (not fuzzy) matching of the echo
 	Cmd      string     `json:"cmd,omitempty"`
 	OnAuth   int        `json:"on_auth,omitempty"`
 	Secret   string     `json:"secret,omitempty"`
@@ -111,8 +112,10 @@ func genC12(r *sim.Rng, i int) *c12Case {
 				}
 			}
 		}
+		c.Exact = r.Chance(1, 3)
 	case 1:
 		c.Kind = "input"
+		c.Exact = r.Chance(1, 3)
 		c.Cmd = r.Pick([]string{"show version", "show ip interface brief | include up", "x", "terminal width 511", "set cli pager off", "show vlan all"})
 		if r.Chance(1, 3) {
 			c.Segs, c.DefSeg = nil, sim.SegAllButLast // the last byte of every burst arrives alone
@@ -182,6 +185,11 @@ func runC12Case(id string, c *c12Case) {
 			especs = append(especs, fmt.Sprintf("%s/%s/%s", hx([]byte(e.Input)), rn, h))
 		}
 		var oo []util.Option
+		iaFlags := ""
+		if c.Exact {
+			oo = append(oo, opoptions.WithExactMatchInput())
+			iaFlags = "x"
+		}
 		if len(c.Complete) > 0 {
 			var ps []*regexp.Regexp
 			for _, n := range c.Complete {
@@ -200,7 +208,7 @@ func runC12Case(id string, c *c12Case) {
 		daw := append([]int(nil), tr.DeliveredAtWrite...)
 		start := tr.StartBytes()
 		_ = d.Close()
-		call := fmt.Sprintf("ia||%s|%s", strings.Join(c.Complete, ","), strings.Join(especs, ";"))
+		call := fmt.Sprintf("ia|%s|%s|%s", iaFlags, strings.Join(c.Complete, ","), strings.Join(especs, ";"))
 		cs.Line = fmt.Sprintf("chan 1000 prompt_pattern %s %s %s %s", hx([]byte("\n")), hx(start), hxStrs([]string{call}), logStr)
 		out := ""
 		if e != nil {
@@ -281,6 +289,10 @@ func runC12Case(id string, c *c12Case) {
 		if c.Eager {
 			oo = append(oo, opoptions.WithEager())
 			flags = "e"
+		}
+		if c.Exact {
+			oo = append(oo, opoptions.WithExactMatchInput())
+			flags += "x"
 		}
 		tr.Mark('C')
 		b, e := d.Channel.SendInput(c.Cmd, oo...)
